@@ -111,7 +111,13 @@ impl<L: AsyncLink, S: AsyncSleep> Sender<'_, L, S> {
             self.link.receive(self.rx).await?;
             tracing::trace!("recv: {}", self.rx.iter().join(", "));
 
-            if check_if_msg_is_processed(self.tx, self.rx).all(std::convert::identity) {
+            // disabled devices receive nothing: their (possibly stale) acknowledgements are not waited for
+            if self
+                .geometry
+                .iter()
+                .zip(check_if_msg_is_processed(self.tx, self.rx))
+                .all(|(dev, processed)| !dev.enable || processed)
+            {
                 return Ok(());
             }
             if start.elapsed() > timeout {
@@ -120,9 +126,11 @@ impl<L: AsyncLink, S: AsyncSleep> Sender<'_, L, S> {
             receive_timing += self.option.receive_interval;
             self.option.sleeper.sleep_until(receive_timing).await;
         }
-        self.rx
+        self.geometry
             .iter()
-            .try_fold((), |_, r| {
+            .zip(self.rx.iter())
+            .filter(|(dev, _)| dev.enable)
+            .try_fold((), |_, (_, r)| {
                 autd3_driver::firmware::cpu::check_firmware_err(r)
             })
             .and_then(|e| {
